@@ -445,6 +445,32 @@ func init() {
 			}
 			rec(nil)
 		}, c17Check)
+	// characters of 2, 3 and 4 bytes inside string literals BEFORE bare values, nested type names and paths: whoever
+	// takes token texts by offset must count in the unit the lexer counts in
+	definePart("C17", "c17/non-ascii-before-tokens", "qt", "a string literal holding 2-, 3- and 4-byte characters followed by every list of <= 2 assignments from 16 forms (bare identifiers, numbers, nested types, dotted and indexed paths), three spacings, as top-level body and inside a nested block",
+		func(tier string, yield func(string)) {
+			forms := []string{`a=1`, `a="s"`, `a=U{}`, `a=U{b=2}`, `a=U{b=V{c=3}}`, `a=U{b=2,b=4}`, `a.b=5`, `a.b=W{c=6}`, `a.b.c=7`, `a.type=X`, `a.b.type=Y`, `a[0].b=8`,
+				`lv=info`, `n=-12`, `f=1.5e3`, `t=true`}
+			for _, pre := range []string{`s="é"`, `s="日志"`, `s="€€€€"`, `s="\U0001F600x"`, `s="aé日😀"`, `s="é",r="日"`} {
+				var rec func(cur []string)
+				rec = func(cur []string) {
+					if len(cur) > 0 {
+						body := pre + "," + strings.Join(cur, ",")
+						yield("T{" + body + "}")
+						yield("T {\n " + strings.ReplaceAll(body, ",", " ,\n ") + ",\n}")
+						yield(c17Spacer.Replace("T{" + body + "}"))
+						yield("T{z=Z{" + body + "}," + cur[0] + "}")
+					}
+					if len(cur) == 2 {
+						return
+					}
+					for _, f := range forms {
+						rec(append(cur, f))
+					}
+				}
+				rec(nil)
+			}
+		}, c17Check)
 	alphabet := []string{"A", "a", "_", "0", "9", "x", "e", "E", "+", "-", ".", `"`, `\`, "/", "n", "u", "{", "}", "=", ",", "[", "]", " ", "\n", "é", "\xff"}
 	definePart("C17", "c17/byte-strings", "qt", "every string of length <= 4 (thorough 5) over a 26-symbol alphabet, bare and as the value in T{k=...}",
 		func(tier string, yield func(string)) {
